@@ -989,6 +989,7 @@ func c03edits() []c03edit {
 			d["responses"] = jm{"items": jm{"description": "unused"}}
 			d["securityDefinitions"] = jm{"items": jm{"type": "basic"}}
 			d["x-catalog"] = jm{"items": jl{"a", "b"}, "type": "list"}
+			d["x-shape"] = jm{"type": "array"}
 			if defs := jo(d["definitions"]); defs != nil {
 				for _, k := range jkeys(defs) {
 					if m := jo(defs[k]); m != nil {
